@@ -99,16 +99,23 @@ class _Guard:
         self.seconds = seconds
 
     def __enter__(self):
-        self.old = signal.signal(signal.SIGALRM, _on_alarm)
+        try:
+            self.old = signal.signal(signal.SIGALRM, _on_alarm)
+            self.armed = True
+        except ValueError:          # not the main thread (a caller replaying from a worker thread): no guard
+            self.armed = False
+            return self
         signal.setitimer(signal.ITIMER_REAL, self.seconds)
         return self
 
     def rearm(self):
-        signal.setitimer(signal.ITIMER_REAL, self.seconds)
+        if self.armed:
+            signal.setitimer(signal.ITIMER_REAL, self.seconds)
 
     def __exit__(self, *exc):
-        signal.setitimer(signal.ITIMER_REAL, 0)
-        signal.signal(signal.SIGALRM, self.old)
+        if self.armed:
+            signal.setitimer(signal.ITIMER_REAL, 0)
+            signal.signal(signal.SIGALRM, self.old)
         return False
 
 
